@@ -160,3 +160,22 @@ PROPS["C06"] = {
         {"test": "^TestReceiverReports$", "checks": 5000, "shards": 15, "timeout": 1500},
     ],
 }
+
+PROPS["C07"] = {
+    "pkg": "c07",
+    "technique": "property-based testing against a reference model with an injected clock and an injected ticker (report instants chosen by the generator)",
+    "level_text": "Generated send histories on 1-3 streams with report ticks at generated points (5 000 quick / 200 000 thorough) through report.SenderInterceptor with "
+                  "SenderNow/SenderTicker; every sender report is compared with a model of packet/octet counts, NTP time of the tick and the RTP time extrapolated from "
+                  "the newest frame's first packet. Exploration.",
+    "level_note": "trusts: the model; RTP time tolerance +-1 unit, NTP within 1 us; reports before the first packet are only checked for counts and NTP time; "
+                  "writes use the stream's own SSRC",
+    "assumptions": ["monotone model clock, total < 10 h"],
+    "quick": [
+        {"test": "^TestRegress", "timeout": 120},
+        {"test": "^TestSenderReports$", "checks": 5000, "timeout": 300},
+    ],
+    "thorough": [
+        {"test": "^TestRegress", "timeout": 120},
+        {"test": "^TestSenderReports$", "checks": 15000, "shards": 14, "timeout": 900},
+    ],
+}
